@@ -189,6 +189,9 @@ def _ov_size(v):
     return ("relative", v) if v >= 10 else v
 
 
+_CLICK = object()
+
+
 class Node:
     """Model of one position of the tree: `w` is what the parent holds (possibly a Filler /
     BoxAdapter around `base`), `kids` mirrors the children (Frame: [body, header, footer] with None
@@ -509,16 +512,20 @@ class _Run:
 
         return stale(gf._w)  # noqa: SLF001
 
-    def replica_key_delivery(self, key):
-        """Leaf ids a FRESH tree with the live structure and focus offers `key` to (None: not comparable)."""
+    def replica_key_delivery(self, key, click=None):
+        """Leaf ids a FRESH tree with the live structure and focus offers `key` to (None: not comparable); with
+        key = _CLICK: (leaf ids that see the press at `click`, focus path afterwards)."""
 
         class Sink:
             def __init__(self):
                 self.got = []
+                self.got_mouse = []
 
             def leaf_event(self, kind, leaf, size, *detail):
                 if kind == "key":
                     self.got.append(leaf.lid)
+                elif kind == "mouse":
+                    self.got_mouse.append(leaf.lid)
 
             def leaf_action(self, leaf, act):
                 pass
@@ -546,7 +553,14 @@ class _Run:
                 return None
         try:
             w = self.clone_widgets(self.root, sink)
-            if w is None or not w.selectable():
+            if w is None:
+                return None
+            if key is _CLICK:
+                # the same button-1 press on the fresh tree: which leaves see it and where the focus path ends up
+                x, y = click
+                w.mouse_event(self.size, "mouse press", 1, x, y, True)
+                return (sink.got_mouse, list(w.base_widget.get_focus_path()) if hasattr(w.base_widget, "get_focus_path") else None)
+            if not w.selectable():
                 return None
             w.keypress(self.size, key)
         except Exception as e:  # noqa: BLE001
@@ -862,10 +876,24 @@ class _Run:
         cols, rows = self.size
         x, y = op["x"] % cols, op["y"] % rows
         p0 = self.focus_path()
+        fresh = self.replica_key_delivery(_CLICK, click=(x, y))
+        edits0 = getattr(self, "reentrant_edits", 0)
         rv = self.root.w.mouse_event(self.size, "mouse press", 1, x, y, True)
         self.user_steps += 1
         p1 = self.focus_path()
         evs = [e for e in self.events if e[0] == "mouse"]
+        if fresh is not None and fresh[1] is not None and p1 is not None and getattr(self, "reentrant_edits", 0) == edits0:
+            # a press moves the focus to where it lands: the same press on a freshly built tree with the same contents,
+            # options and focus positions reaches the same leaves and leaves the same focus path
+            live = [e[1].lid for e in evs]
+            if live != fresh[0] or p1 != fresh[1]:
+                self.violate(
+                    "C08.2",
+                    f"click-differs-from-fresh-tree {self.root.kind}",
+                    f"step {i}: press at {(x, y)} size {self.size}: leaves {live}, focus path {p0!r} -> {p1!r}; a freshly built tree: leaves {fresh[0]}, focus path -> {fresh[1]!r}; tree {self.describe(self.root)}",
+                )
+            else:
+                self.res.probe("click_equals_fresh_tree")
         if p0 != p1:
             self.res.probe("click_changed_focus")
         if not evs:
